@@ -113,3 +113,17 @@ Theorem C02_positions_cold_caches : forall s, ColdCache.ids_distinct s ->
   gi = advance 1 0 (source s).
 Proof. exact ColdCacheTree.fresh_stream_good. Qed.
 Print Assumptions C02_positions_cold_caches.
+
+(* the extracted checker - all eight clauses, four modes - accepts the model's own observations *)
+From RS Require Import Api.ApiTree.
+From RS Require Proofs.ChkModelC02.
+Theorem C02_checker_accepts_model : forall s ws,
+  RStreamTree.rshape s = true -> treeA s = true -> rsmall s = true -> chk_C02 s (api_tree s ws) = 0.
+Proof. exact ChkModelC02.chk_C02_model. Qed.
+Print Assumptions C02_checker_accepts_model.
+
+Theorem C02_checker_accepts_model_cold_caches : forall s, ColdCache.ids_distinct s ->
+  RStreamTree.rshape (ColdCache.uncache s) = true -> treeA s = true -> rsmall (ColdCache.uncache s) = true ->
+  chk_C02 s (api_tree s []) = 0.
+Proof. exact ChkModelC02.chk_C02_model_cold. Qed.
+Print Assumptions C02_checker_accepts_model_cold_caches.
